@@ -291,7 +291,8 @@ func HarnessShouldCacheTable() {
 
 // HarnessCCMultiLine: several Cache-Control header lines count as one list (RFC 9110 §5.3).
 func HarnessCCMultiLine() {
-	lines := []string{"max-age=60", "public", "no-store", "private", "no-cache", "max-age=0", "MAX-AGE=30"}
+	// an empty line (a header field with an empty value) is a list with no members
+	lines := []string{"max-age=60", "public", "no-store", "private", "no-cache", "max-age=0", "MAX-AGE=30", "", " "}
 	a := lines[symChoice(len(lines))]
 	b := lines[symChoice(len(lines))]
 	fa, _, _ := refCacheControl(a)
@@ -316,7 +317,7 @@ func HarnessExpiresForms() {
 	var expT time.Time
 	switch form {
 	case 1:
-		h["Expires"] = []string{[]string{"0", "garbage", "Thu, 32 Foo 2026 25:61:00 GMT", "-1"}[symChoice(4)]}
+		h["Expires"] = []string{[]string{"0", "garbage", "Thu, 32 Foo 2026 25:61:00 GMT", "-1", "", " "}[symChoice(6)]}
 	case 2, 3:
 		expT = symTime()
 		h["Expires"] = []string{vTimeString(expT)}
